@@ -92,6 +92,21 @@ pub fn parse_datetime(s: &str) -> Result<(NaiveDateTime, NaiveDateTime), String>
             }
         }
         None => {
+            // a signed number is an offset in days from today, however many digits it has
+            if s.len() >= 2 && (s.starts_with("+") || s.starts_with("-")) {
+                if let Ok(days) = s.parse::<i64>() {
+                    let date = Duration::try_days(days)
+                        .and_then(|offset| Local::now().date_naive().checked_add_signed(offset));
+                    return match date {
+                        Some(date) => Ok((
+                            date.and_hms_opt(0, 0, 0).unwrap(),
+                            date.and_hms_opt(23, 59, 59).unwrap(),
+                        )),
+                        None => Err("Error parsing date/time value: ".to_string() + s),
+                    };
+                }
+            }
+
             if s.len() >= 5 && s.is_ascii() {
                 // (chrono-english slices its input by bytes and panics on multi-byte text)
                 match parse_date_string(s, Local::now(), Dialect::Uk) {
@@ -116,16 +131,6 @@ pub fn parse_datetime(s: &str) -> Result<(NaiveDateTime, NaiveDateTime), String>
                     }
                     _ => Err("Error parsing date/time value: ".to_string() + s),
                 }
-            } else if s.len() >= 2 && (s.starts_with("+") || s.starts_with("-")) {
-                let days = match s.parse::<i64>() {
-                    Ok(days) => days,
-                    _ => return Err("Error parsing date/time value: ".to_string() + s),
-                };
-                let date = Local::now().date_naive() + Duration::days(days);
-                let start = date.and_hms_opt(0, 0, 0).unwrap();
-                let finish = date.and_hms_opt(23, 59, 59).unwrap();
-
-                Ok((start, finish))
             } else {
                 Err("Error parsing date/time value: ".to_string() + s)
             }
